@@ -162,7 +162,10 @@ func exec(thread *starlark.Thread, h *host, src string) (o obs) {
 	go func() {
 		select {
 		case <-done:
-		case <-time.After(watchdogAfter):
+		case <-time.After(watchdogDelay()):
+			// nothing has stopped the run: clear whatever occupies the reason slot and cancel for good
+			atomic.AddInt64(&watchdogFired, 1)
+			thread.Uncancel()
 			thread.Cancel(reasons[watchdogReason])
 		}
 	}()
@@ -182,6 +185,15 @@ func exec(thread *starlark.Thread, h *host, src string) (o obs) {
 }
 
 var watchdogAfter = 4 * time.Second
+var watchdogFired int64
+
+// once the watchdog has had to fire a few times the tree is broken anyway: do not wait long for the rest
+func watchdogDelay() time.Duration {
+	if atomic.LoadInt64(&watchdogFired) > 4 {
+		return 40 * time.Millisecond
+	}
+	return watchdogAfter
+}
 
 const asyncSafety = 40000000
 
